@@ -26,6 +26,7 @@ import (
 	"strconv"
 	"strings"
 	"sync"
+	"sync/atomic"
 	"time"
 
 	"github.com/prometheus/client_golang/prometheus"
@@ -51,9 +52,13 @@ type c14Case struct {
 	K       int    `json:"k"`
 	C       int    `json:"c"`
 	Perturb int    `json:"perturb"`
+	Clock   string `json:"clock"` // none | short | mid | long: second round of callers after the cache clock advanced (hook h3b)
 	Tracer  bool   `json:"tracer"`
 	Gc      bool   `json:"gc"`
 }
+
+// how far the fake cache clock is advanced between the two rounds
+var c14Advance = map[string]time.Duration{"short": 30 * time.Second, "mid": 400 * time.Second, "long": 2 * time.Hour}
 
 // every range question of a case ends at the same fixed, unaligned instant
 const c14T0 = int64(1_700_000_000 + 1234)
@@ -104,6 +109,8 @@ func c14Concretise(cs c14Case) (qs []c14Q, ask []int) {
 	}
 	return qs, ask
 }
+
+func c14Clocked(cs c14Case) bool { return c14Advance[cs.Clock] > 0 && promhook.HasState() }
 
 func c14Mix64(x uint64) uint64 {
 	x += 0x9E3779B97F4A7C15
@@ -245,7 +252,16 @@ func c14Secs(s string) int {
 
 // c14Run executes one case once. hang = the callers did not all return within the deadline.
 func c14Run(cs c14Case, deadline time.Duration, traced bool) (recs []c14Rec, hang bool, err error) {
+	clocked := c14Clocked(cs)
+	if clocked && cs.K > 32 {
+		cs.K = 32
+	}
 	qs, ask := c14Concretise(cs)
+	rounds := 1
+	if clocked {
+		rounds = 2
+		ask = append(ask, ask...)
+	}
 	srv, err := promsrv.Start(true)
 	if err != nil {
 		return nil, false, err
@@ -277,62 +293,81 @@ func c14Run(cs c14Case, deadline time.Duration, traced bool) (recs []c14Rec, han
 	reg := prometheus.NewRegistry()
 	fg := promapi.NewFailoverGroup("prom", srv.URL(), []*promapi.Prometheus{prom}, false, "up", nil, nil, nil)
 	fg.StartWorkers(reg)
+	base := time.Now()
+	var offset atomic.Int64
+	if clocked {
+		promhook.SetCacheClock(fg, func() time.Time { return base.Add(time.Duration(offset.Load())) })
+	}
+	type tick struct {
+		seq  uint64
+		secs int
+	}
+	var ticks []tick
 
 	var mu sync.Mutex
-	results := make([]c14Res, cs.K)
-	gids := make([]uint64, cs.K)
-	var wg, ready sync.WaitGroup
-	start := make(chan struct{})
-	for i := 0; i < cs.K; i++ {
-		wg.Add(1)
-		ready.Add(1)
-		go func(i int) {
-			defer wg.Done()
-			g := promhook.Goid()
-			mu.Lock()
-			gids[i] = g
-			mu.Unlock()
-			ready.Done()
-			<-start
-			if !traced {
-				// without the tracer the schedule is diversified at the callers only
-				x := c14Mix64(uint64(cs.Perturb)*1000003 + uint64(i))
-				if x%3 == 0 {
-					time.Sleep(time.Duration(x>>8%300) * time.Microsecond)
-				}
-			}
-			r := c14Ask(fg, qs[ask[i]-1])
-			r.Seq = promhook.NextSeq()
-			mu.Lock()
-			results[i] = r
-			mu.Unlock()
-		}(i)
-	}
-	ready.Wait()
+	results := make([]c14Res, cs.K*rounds)
+	gids := make([]uint64, cs.K*rounds)
 	stopGc := make(chan struct{})
 	var gcWg sync.WaitGroup
-	if cs.Gc {
-		gcWg.Add(1)
-		go func() {
-			defer gcWg.Done()
-			for {
-				select {
-				case <-stopGc:
-					return
-				default:
-					fg.CleanCache()
-					time.Sleep(200 * time.Microsecond)
+	for round := 0; round < rounds && !hang; round++ {
+		if round > 0 {
+			// time passes, then the cache cleaner runs (as the 2-minute ticker / watch loop would)
+			d := c14Advance[cs.Clock]
+			offset.Add(int64(d))
+			ticks = append(ticks, tick{promhook.NextSeq(), int(d / time.Second)})
+			fg.CleanCache()
+		}
+		var wg, ready sync.WaitGroup
+		start := make(chan struct{})
+		for i := round * cs.K; i < (round+1)*cs.K; i++ {
+			wg.Add(1)
+			ready.Add(1)
+			go func(i int) {
+				defer wg.Done()
+				g := promhook.Goid()
+				mu.Lock()
+				gids[i] = g
+				mu.Unlock()
+				ready.Done()
+				<-start
+				if !traced {
+					// without the tracer the schedule is diversified at the callers only
+					x := c14Mix64(uint64(cs.Perturb)*1000003 + uint64(i))
+					if x%3 == 0 {
+						time.Sleep(time.Duration(x>>8%300) * time.Microsecond)
+					}
 				}
-			}
-		}()
-	}
-	close(start)
-	done := make(chan struct{})
-	go func() { wg.Wait(); close(done) }()
-	select {
-	case <-done:
-	case <-time.After(deadline):
-		hang = true
+				r := c14Ask(fg, qs[ask[i]-1])
+				r.Seq = promhook.NextSeq()
+				mu.Lock()
+				results[i] = r
+				mu.Unlock()
+			}(i)
+		}
+		ready.Wait()
+		if cs.Gc && round == 0 {
+			gcWg.Add(1)
+			go func() {
+				defer gcWg.Done()
+				for {
+					select {
+					case <-stopGc:
+						return
+					default:
+						fg.CleanCache()
+						time.Sleep(200 * time.Microsecond)
+					}
+				}
+			}()
+		}
+		close(start)
+		done := make(chan struct{})
+		go func() { wg.Wait(); close(done) }()
+		select {
+		case <-done:
+		case <-time.After(deadline):
+			hang = true
+		}
 	}
 	close(stopGc)
 	gcWg.Wait()
@@ -350,16 +385,21 @@ func c14Run(cs c14Case, deadline time.Duration, traced bool) (recs []c14Rec, han
 	evMu.Lock()
 	evCopy := append([]promhook.Event{}, evs...)
 	evMu.Unlock()
-	return c14Project(cs, qs, ask, traced, gidCopy, resCopy, evCopy, srv.Log(), hang, ""), hang, nil
+	var tk [][2]uint64
+	for _, t := range ticks {
+		tk = append(tk, [2]uint64{t.seq, uint64(t.secs)})
+	}
+	return c14Project(cs, qs, ask, traced, gidCopy, resCopy, evCopy, srv.Log(), hang, "", tk...), hang, nil
 }
 
 // c14Project turns what was observed in one run into trace records (pure projection).
 func c14Project(cs c14Case, qs []c14Q, ask []int, traced bool, gids []uint64, resCopy []c14Res, evCopy []promhook.Event,
-	srvLog []promsrv.Entry, hang bool, replay string) (recs []c14Rec) {
+	srvLog []promsrv.Entry, hang bool, replay string, ticks ...[2]uint64) (recs []c14Rec) {
 	// ---- projection to records
 	id := cs.ID
 	c := c14Blank("Case", id)
-	c["k"], c["c"], c["mix"], c["fault"], c["lat"], c["perturb"], c["traced"], c["gc"] = cs.K, cs.C, cs.Mix, cs.Fault, cs.Lat, cs.Perturb, traced, cs.Gc
+	c["k"], c["c"], c["mix"], c["fault"], c["lat"], c["perturb"], c["traced"], c["gc"] = len(ask), cs.C, cs.Mix, cs.Fault, cs.Lat, cs.Perturb, traced, cs.Gc
+	c["clock"] = cs.Clock
 	c["questions"], c["asks"], c["t0"] = qs, ask, int(c14T0)
 	recs = append(recs, c)
 
@@ -437,6 +477,11 @@ func c14Project(cs c14Case, qs []c14Q, ask []int, traced bool, gids []uint64, re
 		if e.SeqEnd > 0 {
 			mk("end", e.SeqEnd)
 		}
+	}
+	for _, t := range ticks {
+		x := c14Blank("T", id)
+		x["n"], x["seq"] = t[1], t[0]
+		items = append(items, item{x, t[0]})
 	}
 	for i, r := range resCopy {
 		if !r.Done {
